@@ -55,6 +55,31 @@ theorem lpq_gram_psd {p q L : ℝ} (hq : 0 < q) (hqp : q ≤ p) (hp2 : p ≤ 2) 
       lpqCore p q L (applyT T (List.ofFn (xs i))) (applyT T (List.ofFn (xs j))) := rfl
   rw [this, hU i, hU j, lpqCore_ofFn hp]
 
+theorem sumPowerCore_ofFn (q L c : ℝ) (P : ℕ) {m : ℕ} (a b : Fin m → ℝ) :
+    sumPowerCore q L c (P : ℝ) (List.ofFn a) (List.ofFn b) =
+      ((1 - c) * ((∑ k, Real.exp (-(1 / L ^ q * |a k - b k| ^ q))) / (m : ℝ)) + c) ^ P := by
+  simp only [sumPowerCore, absDiffs, zipWith_ofFn, List.map_ofFn, Function.comp_def, sumL_ofFn,
+    count_eq_length, List.length_ofFn, abs_real, rpow_real, exp_real, Real.rpow_natCast]
+  congr 4
+  refine Finset.sum_congr rfl fun k _ => ?_
+  congr 1; ring
+
+/-- **Gram matrices of the sum-power kernel are positive semi-definite** for `0 < q ≤ 2`,
+`0 ≤ c ≤ 1` and a natural power (beyond what C05 claims, which is the Laplace family). -/
+theorem sumPower_gram_psd {q L c : ℝ} (hq : 0 < q) (hq2 : q ≤ 2) (hL : 0 < L) (hc0 : 0 ≤ c) (hc1 : c ≤ 1)
+    (P : ℕ) (T : Transform ℝ) {d n : ℕ} (xs : Fin n → Fin d → ℝ) (w : Fin n → ℝ) :
+    0 ≤ ∑ i, ∑ j, w i * w j * entry (.sumPower q L c (P : ℝ)) T (List.ofFn (xs i)) (List.ofFn (xs j)) := by
+  let a : Fin n → Fin (tlen T d) → ℝ := fun i k => (applyT T (List.ofFn (xs i))).getD k 0
+  have hU : ∀ i, applyT T (List.ofFn (xs i)) = List.ofFn (a i) := fun i =>
+    list_eq_ofFn_getD' _ (applyT_length T (xs i))
+  have hc : (0 : ℝ) ≤ 1 / L ^ q := by positivity
+  have h := (isPSD_sumPower (tlen T d) hq hq2 hc hc0 hc1 P).2 n a w
+  simp only [qf] at h
+  refine h.trans_eq (Finset.sum_congr rfl fun i _ => Finset.sum_congr rfl fun j _ => ?_)
+  have : entry (.sumPower q L c (P : ℝ)) T (List.ofFn (xs i)) (List.ofFn (xs j)) =
+      sumPowerCore q L c (P : ℝ) (applyT T (List.ofFn (xs i))) (applyT T (List.ofFn (xs j))) := rfl
+  rw [this, hU i, hU j, sumPowerCore_ofFn]
+
 /-- Gram matrix of a kernel at the centers `xs` (what `(K + λI)α = Y` is solved with). -/
 noncomputable def gram (K : Spec ℝ) (T : Transform ℝ) {d n : ℕ} (xs : Fin n → Fin d → ℝ) :
     Matrix (Fin n) (Fin n) ℝ :=
@@ -67,6 +92,17 @@ theorem gram_lpq_posSemidef {p q L : ℝ} (hq : 0 < q) (hqp : q ≤ p) (hp2 : p 
     simp only [gram, Matrix.conjTranspose_apply, Matrix.of_apply, star_trivial, entry, coreEntry, lpqCore]
     rw [pdist_comm]
   · have h := lpq_gram_psd hq hqp hp2 hL T xs v
+    simp only [dotProduct, Matrix.mulVec, gram, Matrix.of_apply, star_trivial, Pi.star_apply, Finset.mul_sum]
+    exact h.trans_eq (Finset.sum_congr rfl fun i _ => Finset.sum_congr rfl fun j _ => by ring)
+
+theorem gram_sumPower_posSemidef {q L c : ℝ} (hq : 0 < q) (hq2 : q ≤ 2) (hL : 0 < L) (hc0 : 0 ≤ c)
+    (hc1 : c ≤ 1) (P : ℕ) (T : Transform ℝ) {d n : ℕ} (xs : Fin n → Fin d → ℝ) :
+    (gram (.sumPower q L c (P : ℝ)) T xs).PosSemidef := by
+  refine Matrix.PosSemidef.of_dotProduct_mulVec_nonneg ?_ fun v => ?_
+  · ext i j
+    simp only [gram, Matrix.conjTranspose_apply, Matrix.of_apply, star_trivial, entry, coreEntry, sumPowerCore]
+    rw [absDiffs_comm]
+  · have h := sumPower_gram_psd hq hq2 hL hc0 hc1 P T xs v
     simp only [dotProduct, Matrix.mulVec, gram, Matrix.of_apply, star_trivial, Pi.star_apply, Finset.mul_sum]
     exact h.trans_eq (Finset.sum_congr rfl fun i _ => Finset.sum_congr rfl fun j _ => by ring)
 
